@@ -120,6 +120,8 @@ function strLiteral(v, st) {
       const m = { '\t': '\\t', '\b': '\\b', '\f': '\\f', '\v': '\\v' }[ch]
       if (m) esc = m
       else if (cp <= 0xff && rng.bool()) { esc = '\\x' + cp.toString(16).padStart(2, '0'); if (rng.bool(0.4)) esc = '\\x' + esc.slice(2).toUpperCase() }
+      // (legacy octal escapes, as sloppy-mode JavaScript reads them: three digits, or fewer when no digit follows)
+      else if (cp <= 0xff && rng.bool(0.3)) esc = '\\' + (nextIsDigit || rng.bool() ? cp.toString(8).padStart(3, '0') : cp.toString(8))
       else if (cp <= 0xffff && !(cp >= 0xd800 && cp <= 0xdfff)) esc = rng.bool(0.8) ? '\\u' + cp.toString(16).padStart(4, '0').toUpperCase() : '\\u{' + cp.toString(16).padStart(rng.int(9) + 1, '0') + '}'
       // an astral character as a surrogate pair of escapes, or as a code point escape
       else if (cp > 0xffff) {
